@@ -9,6 +9,7 @@ import CuriesVerif.Spec.Answer
 import CuriesVerif.Check
 import CuriesVerif.Lemmas.Basic
 import CuriesVerif.Lemmas.Lpi
+import CuriesVerif.Lemmas.Sort
 import CuriesVerif.Lemmas.WF
 import CuriesVerif.Lemmas.Refine
 import CuriesVerif.Properties.All
